@@ -28,7 +28,7 @@ CLAIMS = {
             "pull_line/next_block/next_metadata_block, section, metadata entry, text block, quantity parser, step parser incl. "
             "modifiers/ingredient/cookware/timer, parse_block, build_ast) is a discharged Verus obligation under the function's "
             "precondition, and preconditions are discharged at every call site inside the unit list; plus Kani: aisle span "
-            "computation (all sub-slices), colour index, HhMm time format (bounded). One open known finding: build_ast reaches "
+            "computation (all sub-slices), colour index, HhMm time format (bounded), front-matter line scanner (bounded). One open known finding: build_ast reaches "
             "`todo!()` on a front-matter event (D7). Entry points outside are listed in evidence.not_covered.", VERUS + " + " + KANI),
     "C04": ("proof", "Token spans tile the input on char boundaries; Span::new requires start<=end at every covered call site; every "
             "Text built by BlockParser::text has faithful, ordered fragments inside the token range and a span on char boundaries; "
@@ -39,7 +39,8 @@ CLAIMS = {
             "(the &mut borrow of the queue is followed by prophecy); a failed with_recover returns every token; BlockParser::text "
             "covers every token that can hold a letter or digit; parse_step, metadata_entry, named sections, parse_block: every "
             "such token of the block lies in the span of an event queued by the call, and the block is fully consumed (finish). "
-            "Not decided: front-matter split, the composition over all blocks (Iterator::next glue), blank-name sections and `>` "
+            "Bounded (Kani, 3 bytes, not counted as proved): the front-matter line scanner tiles its input. "
+            "Not decided: the rest of the front-matter split, the composition over all blocks (Iterator::next glue), blank-name sections and `>` "
             "text paragraphs.", VERUS),
     "C07": ("proof", "Partial. Leaf parse-stage checks as postconditions: check_modifiers / check_empty_name emit exactly one error iff "
             "the forbidden construct is present; section / metadata_entry / check_alias / check_note / comp_body emit at most one "
@@ -73,7 +74,8 @@ CLAIMS = {
     "C17": ("proof", "Partial. The local mechanisms: is_empty_token is exactly {whitespace, comments, newline}; ws_comments skips only "
             "such tokens; comments never enter text fragments (fragments are faithful slices outside comment tokens); a block "
             "comment ends at the first `-]`; the block splitter drops only blank tokens, trims trailing newlines, and a line "
-            "starting with `>>` or `=` is always a block of its own. The metamorphic relation itself (two parses compared) is not "
+            "starting with `>>` or `=` is always a block of its own; bounded (Kani, 3 bytes): the front-matter line scanner "
+            "treats LF and CRLF alike. The metamorphic relation itself (two parses compared) is not "
             "decided.", VERUS),
 }
 
